@@ -212,7 +212,11 @@ class BeliefPropagationDecoder(BaseBlockDecoder[Union[LinearBlockCodeEncoder, LD
         self.n_c = self.H.size(0)
         self.prep_edge_ind()
         if not self.standard:
-            self.idx_mess_t = torch.where(self.G.sum(0) == 1)[0]
+            # Message bit i is read at the first column of G that is the i-th unit vector
+            unit_columns = (self.G != 0) & (self.G.sum(0) == 1).unsqueeze(0)
+            if not bool(unit_columns.any(dim=1).all()):
+                raise ValueError("The generator matrix must contain a unit column for every message bit (systematic code)")
+            self.idx_mess_t = torch.argmax(unit_columns.to(torch.int64), dim=1)
 
     def prep_edge_ind(self):
         """Prepare edge indices and map structures for the Tanner graph.
